@@ -31,6 +31,21 @@ func SelfTest() error {
 	if !Equal(Add(G(), Neg(G())), infinity) || !Equal(Add(G(), G()), Double(G())) {
 		return errors.New("sm2m: group law")
 	}
+	for i := range smallY {
+		pt := SmallYPoint(i)
+		if !OnCurve(pt) {
+			return errors.New("sm2m: frozen small-ordinate point not on the curve")
+		}
+		enc, ok := NonCanonical(pt, 1)
+		if _, dec := Unmarshal(enc); !ok || dec {
+			return errors.New("sm2m: non-canonical encoding must exist and must be refused by the model decoder")
+		}
+	}
+	if enc, ok := NonCanonical(SmallXPoint(0), 0); !ok || !OnCurve(SmallXPoint(0)) {
+		return errors.New("sm2m: small-abscissa point")
+	} else if _, dec := Unmarshal(enc); dec {
+		return errors.New("sm2m: non-canonical abscissa accepted by the model decoder")
+	}
 
 	// A.2 signature.
 	d := hxs("3945208F 7B2144B1 3F36E38A C6D39F95 88939369 2860B51A 42FB81EF 4DF7C5B8")
